@@ -128,7 +128,7 @@ def judge(at, cm, r, method, fit, viol, known, tags):
             return True
         if method is None:
             ok = RN.kkt(A_fs, b_fs, z, 1e-8 * max(1.0, len(x)))["ok"]
-        elif method == "lsq_linear" and R_ref > 1e-7:
+        elif method == "lsq_linear" and not RN.consistent(r.M):
             ok = True       # normal-equation back-end: only promised on consistent systems
             tags.append("lsq_linear_inconsistent_no_verdict")
         else:
